@@ -16,35 +16,67 @@ Qed.
 Lemma Qcmax_ge_l a b : (this a <= this (Qcmax a b))%Q.
 Proof. unfold Qcmax. destruct (Qle_bool (this a) (this b)) eqn:E; [apply Qle_bool_iff; exact E | apply Qle_refl]. Qed.
 
-(** ceil(fl(n * m)) >= n for an integer n < 2^32 and a factor m >= 1 (either order of the factors) *)
-Lemma ceil_prod_ge n (m : Qc) :
-  0 < n < 2 ^ 32 -> (1 <= this m)%Q -> n <= Qcceil (rnd53 (Qcz n * m)%Qc) /\ n <= Qcceil (rnd53 (m * Qcz n)%Qc).
+(** fl(n * m) >= n for an integer n < 2^32 and a factor m >= 1 (either order of the factors) ... *)
+Lemma prod_ge n (m : Qc) :
+  0 < n < 2 ^ 32 -> (1 <= this m)%Q ->
+  (inject_Z n <= this (rnd53 (Qcz n * m)%Qc))%Q /\ (inject_Z n <= this (rnd53 (m * Qcz n)%Qc))%Q.
 Proof.
   intros Hn Hm.
   assert (A : (this (Qcz n) <= this (Qcz n * m)%Qc)%Q).
   { rewrite this_mult, this_Qcz. rewrite <- (Qmult_1_r (inject_Z n)) at 1.
     apply Qmult_le_l; [|exact Hm]. change 0%Q with (inject_Z 0). rewrite <- Zlt_Qlt. lia. }
-  assert (B : n <= Qcceil (rnd53 (Qcz n * m)%Qc)).
+  assert (B : (inject_Z n <= this (rnd53 (Qcz n * m)%Qc))%Q).
   { pose proof (rnd53_le _ _ A) as R. rewrite (rnd53_Qcz n) in R by (change (2 ^ 53) with 9007199254740992; change (2 ^ 32) with 4294967296 in Hn; lia).
-    pose proof (Qcceil_ge (rnd53 (Qcz n * m)%Qc)) as C. rewrite this_Qcz in R.
-    pose proof (Qle_trans _ _ _ R C) as T. rewrite <- Zle_Qle in T. exact T. }
+    rewrite this_Qcz in R. exact R. }
   split; [exact B|]. replace (m * Qcz n)%Qc with (Qcz n * m)%Qc by ring. exact B.
+Qed.
+
+(** ... and whichever way the code turns a value >= n (n a non-negative integer) into an integer - ceil, floor, round or
+    the bare conversion (truncation) - the result is >= n *)
+Lemma int_of_ge n (q : Qc) :
+  0 <= n -> (inject_Z n <= this q)%Q ->
+  n <= Qcceil q /\ n <= Qcfloor q /\ n <= Qcround q /\ n <= Qctrunc q.
+Proof.
+  intros Hn H.
+  assert (F : n <= Qfloor (this q)) by (apply Qfloor_resp_le in H; rewrite Qfloor_Z in H; exact H).
+  assert (P : (0 <= this q)%Q).
+  { eapply Qle_trans; [|exact H]. change 0%Q with (inject_Z 0). rewrite <- Zle_Qle. exact Hn. }
+  split; [|split; [|split]].
+  - pose proof (Qcceil_ge q) as C. pose proof (Qle_trans _ _ _ H C) as T. rewrite <- Zle_Qle in T. exact T.
+  - exact F.
+  - unfold Qcround. replace (Qle_bool 0 (this q)) with true by (symmetry; apply Qle_bool_iff; exact P).
+    assert (X : (this q <= this q + (1 # 2))%Q).
+    { rewrite <- (Qplus_0_r (this q)) at 1. apply Qplus_le_r. discriminate. }
+    apply Qfloor_resp_le in X. lia.
+  - unfold Qctrunc. destruct (this q) as [a d] eqn:E. cbn [Qnum Qden].
+    unfold Qfloor in F. cbn [Qnum Qden] in F.
+    assert (A0 : 0 <= a).
+    { unfold Qle in P. cbn [Qnum Qden] in P. lia. }
+    rewrite Z.quot_div_nonneg by lia. exact F.
 Qed.
 
 Lemma this_Qcz1 : (1 <= this (Qcz 1))%Q.
 Proof. rewrite this_Qcz. apply Qle_refl. Qed.
 
-Ltac ceil_pad_ge n :=
-  match goal with
-  | |- context [Qcceil (rnd53 (Qcz n * ?m)%Qc)] =>
-    pose proof (proj1 (ceil_prod_ge n m ltac:(assumption)
-      ltac:(first [ eapply Qle_trans; [exact this_Qcz1 | apply Qcmax_ge_r]
-                  | eapply Qle_trans; [exact this_Qcz1 | apply Qcmax_ge_l] ])))
-  | |- context [Qcceil (rnd53 (?m * Qcz n)%Qc)] =>
-    pose proof (proj2 (ceil_prod_ge n m ltac:(assumption)
-      ltac:(first [ eapply Qle_trans; [exact this_Qcz1 | apply Qcmax_ge_r]
-                  | eapply Qle_trans; [exact this_Qcz1 | apply Qcmax_ge_l] ])))
-  end.
+Ltac factor_ge1 :=
+  first [ eapply Qle_trans; [exact this_Qcz1 | apply Qcmax_ge_r]
+        | eapply Qle_trans; [exact this_Qcz1 | apply Qcmax_ge_l] ].
+
+(** [n <= z] for every conversion result z = int(fl(n * m)) in the context, int being ceil / floor / round / truncation *)
+Ltac conv_ge n Hn :=
+  repeat match goal with
+         | E : f2u ?b ?q = Val ?z |- _ =>
+           let T := fresh "T" in
+           assert (T : n <= z /\ 0 <= z < 2 ^ b);
+           [ apply f2u_val in E; destruct E as [E R]; split; [|exact R]; rewrite E; try rewrite Qctrunc_Qcz;
+             match goal with
+             | |- n <= ?R (rnd53 (Qcz n * ?m)%Qc) =>
+               pose proof (int_of_ge n (rnd53 (Qcz n * m)%Qc) ltac:(lia) (proj1 (prod_ge n m Hn ltac:(factor_ge1)))) as [? [? [? ?]]]; assumption
+             | |- n <= ?R (rnd53 (?m * Qcz n)%Qc) =>
+               pose proof (int_of_ge n (rnd53 (m * Qcz n)%Qc) ltac:(lia) (proj2 (prod_ge n m Hn ltac:(factor_ge1)))) as [? [? [? ?]]]; assumption
+             end
+           | clear E; destruct T ]
+         end.
 
 (** a length of the form [if round then upper_power_of_two c else c] with c >= n, when not wrapped to 0 *)
 Lemma padded_ge n c nm (r : bool) :
@@ -54,7 +86,7 @@ Proof.
   pose proof (upper_power_of_two_nonzero_ge c ltac:(lia) ltac:(lia)). lia.
 Qed.
 
-(** the radiation field: spacing 0, ceil(GridSize*max(padding,1)) cells (or the next power of two) *)
+(** the radiation field: spacing 0, int(GridSize*max(padding,1)) cells (or the next power of two) *)
 Lemma gen_rdtn_in_bounds LZ LQ LB sp nm b x :
   0 < LZ O_getGridSize < 2 ^ 32 ->
   gen_rdtn_spacing_bins LZ LQ LB = Val sp -> gen_rdtn_nfreqs LZ LQ LB = Val nm -> 0 < nm ->
@@ -68,10 +100,9 @@ Proof.
   { unfold pad_index, pad_start, w64. rewrite Z.mul_0_r. rewrite Z.mod_0_l by (intro Q; discriminate Q). lia. }
   rewrite P. clear P.
   split_convs Hnm. injection Hnm as Hnm.
-  match goal with E : f2u _ _ = Val ?z |- _ => apply f2u_Qcz in E; destruct E as [-> R] end.
-  revert Hnm R. ceil_pad_ge n. intros Hnm R.
+  conv_ge n Hn.
   match type of Hnm with (if ?r then upper_power_of_two ?c else ?c) = _ =>
-    pose proof (padded_ge n c nm r ltac:(lia) R Hnm Hpos) end.
+    pose proof (padded_ge n c nm r ltac:(lia) ltac:(assumption) Hnm Hpos) end.
   lia.
 Qed.
 
@@ -88,74 +119,11 @@ Proof.
   assert (P : pad_index sp 0 x = x) by (unfold pad_index, pad_start, w64; cbn; lia).
   rewrite P. clear P Hsp.
   split_convs Hnm. injection Hnm as Hnm.
-  destruct (1 <? nb) eqn:C; [lia|].
-  repeat match goal with E : f2u _ _ = Val ?z |- _ => apply f2u_Qcz in E; destruct E as [-> ?] end.
-  revert Hnm. ceil_pad_ge n. intros Hnm.
-  match type of Hnm with (if ?r then upper_power_of_two ?c else ?c) = _ =>
-    pose proof (padded_ge n c nm r ltac:(lia) ltac:(assumption) Hnm Hpos) end.
-  lia.
-Qed.
-
-(** ** closed formulas (C06): the values themselves, up to ring identities of the products *)
-Lemma gen_spacing_bins_formula LZ LQ LB sp :
-  gen_spacing_bins LZ LQ LB = Val sp ->
-  sp = Qcround (rnd53 (Qcz (LZ O_getGridSize) * LQ V_spacing_ps)%Qc) /\ 0 <= sp < 2 ^ 32.
-Proof.
-  intros H. unfold gen_spacing_bins in H. split_convs H. injection H as <-.
-  match goal with E : f2u _ _ = Val _ |- _ => apply f2u_Qcz in E; destruct E as [-> R] end.
-  split; [|exact R]. do 2 f_equal; try ring.
-Qed.
-
-Lemma gen_rdtn_nfreqs_formula LZ LQ LB nm :
-  gen_rdtn_nfreqs LZ LQ LB = Val nm ->
-  let c := Qcceil (rnd53 (Qcz (LZ O_getGridSize) * Qcmax (LQ O_getPadding) (Qcz 1))%Qc) in
-  nm = (if LB O_getRoundPadding then upper_power_of_two c else c) /\ 0 <= c < 2 ^ 64.
-Proof.
-  intros H c. unfold gen_rdtn_nfreqs in H. split_convs H. injection H as <-.
-  match goal with E : f2u _ _ = Val _ |- _ => apply f2u_Qcz in E; destruct E as [-> R] end.
-  assert (X : forall a b : Qc, a = b -> Qcceil (rnd53 a) = Qcceil (rnd53 b)) by (intros; subst; reflexivity).
-  match goal with
-  | |- (if ?r then upper_power_of_two ?d else ?d) = _ /\ _ =>
-    assert (E : d = c) by (unfold c; apply X; ring); rewrite E in *; split; [reflexivity | exact R]
-  end.
-Qed.
-
-Lemma gen_wake_nfreqs_formula LZ LQ LB sp nm :
-  0 < LZ O_getGridSize < 2 ^ 32 -> 1 < LZ N_getBunchCurrents < 2 ^ 32 ->
-  LZ O_getGridSize * LZ N_getBunchCurrents < 2 ^ 32 ->
-  gen_spacing_bins LZ LQ LB = Val sp -> gen_wake_nfreqs LZ LQ LB = Val nm ->
-  let n := LZ O_getGridSize in let nb := LZ N_getBunchCurrents in
-  let c := Z.max (Qcceil (rnd53 (Qcz (n * nb) * LQ V_spacing_ps)%Qc)) ((nb - 1) * sp + n) in
-  nm = (if LB O_getRoundPadding then upper_power_of_two c else c).
-Proof.
-  intros Hn Hnb Hprod Hsp Hnm n nb c. fold n nb in Hn, Hnb, Hprod.
-  unfold gen_spacing_bins in Hsp. unfold gen_wake_nfreqs in Hnm. fold n nb in Hsp, Hnm.
-  match type of Hsp with
-  | context [conv_bind (f2u ?bt ?q) _] =>
-    destruct (f2u bt q) as [s|] eqn:Es; cbn [conv_bind] in Hsp; [|discriminate Hsp];
-    try rewrite Es in Hnm; cbn [conv_bind] in Hnm
-  end.
-  injection Hsp as ->.
-  split_convs Hnm. f2u_ranges.
-  destruct (1 <? nb) eqn:C; [|lia].
-  injection Hnm as <-.
-  repeat match goal with E : f2u _ (Qcz _) = Val ?z |- _ => apply f2u_Qcz in E; destruct E as [-> ?] end.
-  assert (X : forall (a b : Qc) (u v : Z), a = b -> u = v -> Z.max (Qcceil (rnd53 a)) u = Z.max (Qcceil (rnd53 b)) v)
-    by (intros; subst; reflexivity).
-  match goal with
-  | |- (if ?r then upper_power_of_two ?d else ?d) = _ =>
-    assert (E : d = c);
-      [ unfold c; apply X;
-        [ unfold wrap32; change (2 ^ 32) with 4294967296 in *;
-          repeat match goal with
-                 | |- context [?a mod ?m] =>
-                   lazymatch a with context [_ mod _] => fail | _ => rewrite (Z.mod_small a m) by nia end
-                 end; try reflexivity; ring
-        | unfold w64, wrap32; change (2 ^ 64) with 18446744073709551616 in *; change (2 ^ 32) with 4294967296 in *;
-          repeat match goal with
-                 | |- context [?a mod ?m] =>
-                   lazymatch a with context [_ mod _] => fail | _ => rewrite (Z.mod_small a m) by nia end
-                 end; ring ]
-      | rewrite E; reflexivity ]
-  end.
+  conv_ge n Hn. f2u_ranges.
+  split_ifs Hnm; try lia.
+  - match type of Hnm with upper_power_of_two ?c = _ =>
+      assert (A : 1 <= c < 2 ^ 64) by lia;
+      assert (Bz : upper_power_of_two c <> 0) by (rewrite Hnm; lia);
+      pose proof (upper_power_of_two_nonzero_ge c A Bz) end.
+    lia.
 Qed.
